@@ -53,6 +53,9 @@ func MTH(leaves []Hash) Hash {
 
 // Junk returns a value that is (with overwhelming probability) no hash of any world.
 func Junk(k int) Hash {
+	if k == 0 {
+		return Hash{} // the all-zero value: what a zero tlog.Hash holds
+	}
 	return sha256.Sum256([]byte(fmt.Sprintf("verif junk %d", k)))
 }
 
